@@ -90,15 +90,26 @@ theorem run_variant_returns_function_result (s : St) (h : Reachable s) (i : Nat)
     cases hc : it.cur <;> simp_all [recoverRet, Outcome.isPanic]
 
 /-- API requests: a handler function that panics before it has written anything is answered with status 500,
-    and the surrounding RunWorker returns nil (the handler-level recover has already dealt with the panic). -/
-theorem api_panic_answers_500 (s : St) (h : Reachable s) (i : Nat) (it : Item) (v : PCls)
-    (hit : s.items[i]? = some it) (hk : it.kind = .api false) (hd : it.done = true) (hp : it.cur = .panic v) :
-    it.http = 500 ∧ it.ret = some .nil := by
+    and the surrounding RunWorker returns nil (the handler-level recover has already dealt with the panic) —
+    with dev mode off (plain page) and on (page with the panic value and the stack trace). -/
+theorem api_panic_answers_500 (s : St) (h : Reachable s) (i : Nat) (it : Item) (v : PCls) (dev : Bool)
+    (hit : s.items[i]? = some it) (hk : it.kind = .api false dev) (hd : it.done = true) (hp : it.cur = .panic v) :
+    it.http = 500 ∧ it.ret = some .nil ∧ it.detail = dev := by
   have hl := (reachable_inv h).loc i it hit
   have hpc : it.pc = 5 := by simpa [Item.done, hk] using hd
-  have := hl.api false hk (by omega)
+  have := hl.api false dev hk (by omega)
   rw [hp] at this
-  simpa [httpStatus] using this.symm
+  simp [httpStatus, Outcome.isPanic] at this
+  exact ⟨this.2.1, this.1, this.2.2⟩
+
+/-- API requests: the handler-level recover reports the panic through the module error channel — with the value
+    `recover()` delivered, type "custom" — in both branches of its `if devMode()`, before it answers. -/
+theorem api_panic_is_reported_in_every_mode (env : Env) (it : Item) (aw dev : Bool) (v : PCls)
+    (hk : it.kind = .api aw dev) (hp : it.pc = 2) (hc : it.cur = .panic v) :
+    ∃ it', itemStep env it false = some (it', { rep := some (panicReport .custom v) }) ∧
+      it'.reps = it.reps + 1 ∧ it'.ret = some .nil ∧ it'.http = (if aw then 202 else 500) ∧ it'.detail = dev := by
+  cases dev <;>
+    simp [itemStep, workerStep, hk, hp, hc, recovered_ne_nil, httpStatus]
 
 /-- Reported once: when all items have finished, the number of reports handed to `Report()` — delivered on
     the error channel or dropped because it was full — equals the number of panics raised, over all items,
@@ -114,15 +125,82 @@ theorem reported_once (s : St) (h : Reachable s) (hd : s.allDone = true) :
   rw [done_pendingReport it (hall it hit)] at this
   omega
 
-/-- … and none is lost as long as the channel has room (the send in `Report()` is non-blocking):
-    then the feed holds exactly one report per panic. -/
+/-- … and none is lost as long as the channel (set, of capacity `cap`) has room — whether or not anybody
+    reads it: then the feed holds exactly one report per panic. -/
 theorem every_panic_delivered_when_channel_has_room (s : St) (h : Reachable s) (hd : s.allDone = true)
-    (hroom : sumNat Item.pans s.items ≤ s.cap) :
+    (hset : s.chanSet = true) (hroom : sumNat Item.pans s.items ≤ s.cap) :
     s.dropped = 0 ∧ s.feed.length = sumNat Item.pans s.items := by
   have hi := reachable_inv h
   have h1 := reported_once s h hd
-  have h2 := hi.cap
+  obtain ⟨_, _, _, h4⟩ := hi.cap
+  simp [hset] at h4
   omega
+
+/-- The source has the shape the model is written over (regenerated from /repo on every run): `ModuleError`
+    declares none of `Unwrap` / `Is` / `As`; the switch of `runServiceWorker` has exactly these cases in this
+    order; `Report()` takes the lock, sets `lastReportedError`, and sends with `select { case ch <- me: default: }`; the
+    handler-level recover of the API creates and reports the panic error first and answers — dev-mode page or plain
+    page, both 500 — afterwards. -/
+theorem source_shape :
+    PB.Gen.Managed.moduleErrorChainMethods = [] ∧
+    PB.Gen.Managed.svcSwitch = [("err == nil", "return"), ("errors.Is(err, context.Canceled)", "return"),
+      ("errors.Is(err, ErrRestartNow)", "loop"), ("default", "backoff")] ∧
+    PB.Gen.Managed.reportSend = "select-default" ∧
+    PB.Gen.Managed.reportSeq = ["lock", "defer unlock", "last = me", "send", "stderr"] ∧
+    PB.Gen.Managed.apiRecoverSeq = ["new", "report", "if devMode { respond 500 detail } else { respond 500 plain }"] := by
+  decide
+
+/-- The report step, whatever the state of the channel (unset; capacity 0, 1, n; full; consumer reading,
+    parked or gone): with room or a parked consumer the report is appended to the feed and nothing is dropped;
+    otherwise the feed is unchanged, the report is counted as dropped and only `lastReportedError` keeps it. -/
+theorem report_delivered_iff_room (s : St) (r : Report) :
+    (s.canSend = true → (s.report r).feed = s.feed ++ [r] ∧ (s.report r).dropped = s.dropped) ∧
+    (s.canSend = false → (s.report r).feed = s.feed ∧ (s.report r).dropped = s.dropped + 1) ∧
+    (s.report r).last = some r :=
+  ⟨report_delivered s r, fun h => ⟨(report_dropped s r h).1, (report_dropped s r h).2.1⟩, report_last s r⟩
+
+/-- Reporting never blocks: `Report()` runs inside the deferred recover block, before the counters are
+    decremented and before the blocking run variant returns — the send is the non-blocking one, so no state
+    of the channel can hold the recovering goroutine. -/
+theorem report_never_blocks (s : St) : s.reportBlocks = false := reportBlocks_false s
+
+/-- … and it touches nothing but the channel and `lastReportedError`: counters, flags and items are as before. -/
+theorem report_leaves_accounting (s : St) (r : Report) :
+    (s.report r).w = s.w ∧ (s.report r).t = s.t ∧ (s.report r).m = s.m ∧ (s.report r).g = s.g ∧
+    (s.report r).c = s.c ∧ (s.report r).items = s.items ∧ (s.report r).stopFlag = s.stopFlag ∧
+    (s.report r).stopCompleted = s.stopCompleted := by
+  simp
+
+/-- Nothing blocks: in every reachable state — in particular with the error channel unset, full or unread —
+    every unfinished managed execution can take its next step (a prep/start/stop routine only waits for the
+    module's control slot). Together with `counters_restored` and `module_still_stoppable`: every execution can
+    run to its end, and then the counters are back and the stop completes. -/
+theorem unfinished_item_can_step (s : St) (h : Reachable s) (i : Nat) (it : Item)
+    (hit : s.items[i]? = some it) (hd : it.done = false)
+    (hc : (it.kind = .ctrl ∨ it.kind = .stop) → it.pc = 0 → sumBy Item.cc s.items = 0) :
+    ∃ s', step s (.item i false) = some s' := by
+  have hl := (reachable_inv h).loc i it hit
+  obtain ⟨it', e, hs⟩ := itemStep_enabled s.env it hl.bound hd (by
+    intro hk hp; simpa [St.env] using hc hk hp)
+  exact ⟨s.apply i it' e, by simp [step, hit, hs, reportBlocks_false]⟩
+
+/-- The decision of the service-worker loop as a function of what `runWorker` returned: finished only for nil
+    and for a returned error that wraps context.Canceled; a panic error always takes the back-off restart. -/
+theorem service_worker_decision (r : Ret) :
+    svcDecide r = (match r with
+      | .nil => .finished | .canceled => .finished | .restart => .restartNow | .err => .backoff
+      | .panicErr _ => .backoff) := by
+  cases r with
+  | nil => exact svcDecide_nil
+  | err => exact svcDecide_err
+  | canceled => exact svcDecide_canceled
+  | restart => exact svcDecide_restart
+  | panicErr rp => exact svcDecide_panicErr rp
+
+/-- A panic error matches no sentinel the managed-execution code compares with, whatever the panic value is
+    (an error that is or wraps context.Canceled, ErrRestartNow, context.DeadlineExceeded, ErrCleanExit, …). -/
+theorem panic_error_matches_no_sentinel (t : TType) (v : PCls) (sn : Sentinel) :
+    (Ret.panicErr (panicReport t v)).is sn = false := panicErr_is_no_sentinel _ sn
 
 /-- Every report an item program makes identifies itself as a panic and carries a non-nil value and a stack trace. -/
 theorem reports_identify_as_panic (s : St) (h : Reachable s) (r : Report) (hr : r ∈ s.feed) :
@@ -201,7 +279,9 @@ theorem service_worker_exits_only_when_finished_or_stopping (s : St) (h : Reacha
   · exact Or.inl h
   · exact Or.inr (Or.inl h)
   · right; right
-    cases hc : it.cur <;> simp_all [Outcome.restarts]
+    cases hc : it.cur <;>
+      simp_all [Outcome.restarts, recoverRet, recovered_ne_nil, svcDecide_nil, svcDecide_err, svcDecide_canceled,
+        svcDecide_restart, svcDecide_panicErr]
 
 /-- Service workers are restarted (2): after a run that panicked (or failed, or asked for a restart), with the
     module not stopping, at most three steps of the worker (report and back-off, timer, loop head) put it
@@ -225,8 +305,21 @@ theorem service_worker_runs_until_finished (env : Env) (hs : env.stopFlag = fals
   rw [itemIter_succ env n _ { kind := .svc, outs := os, pc := 1 } { dw := 1 } (by simp [itemStep, svcStep])]
   exact h1
 
-/-- A panic restarts: the premise of `service_worker_restarts` holds for every panic value. -/
-theorem panic_restarts_service_worker (v : PCls) : (Outcome.panic v).restarts = true := rfl
+/-- A panic restarts: the premise of `service_worker_restarts` holds for every panic value — also for one
+    that is or wraps context.Canceled or ErrRestartNow. -/
+theorem panic_restarts_service_worker (v : PCls) : (Outcome.panic v).restarts = true := by
+  simp [Outcome.restarts, recoverRet, recovered_ne_nil, svcDecide_panicErr]
+
+/-- … so: a service worker whose function panicked — with any value — while the module is not stopping is
+    inside its function again after the report, the back-off and the loop head; it keeps its worker count. -/
+theorem panic_in_service_worker_leads_to_restart (env : Env) (it : Item) (v : PCls) (hk : it.kind = .svc)
+    (hp : it.pc = 3) (hc : it.cur = .panic v) (hs : env.stopFlag = false) :
+    ∃ it', itemIter env 3 it = some it' ∧ it'.kind = .svc ∧ it'.inFn = true ∧ it'.cw = 1 ∧
+      it'.reps = it.reps + 1 ∧ it'.failCnt = it.failCnt + 1 ∧ it'.outs = it.outs := by
+  let it2 : Item :=
+    { it with pc := 2, ret := some (.panicErr (panicReport .worker v)), reps := it.reps + 1, failCnt := it.failCnt + 1 }
+  refine ⟨it2, ?_, by simp [it2, hk], by simp [it2, Item.inFn, hk], by simp [it2, Item.cw, hk], rfl, rfl, rfl⟩
+  simp [itemIter, itemStep, svcStep, hk, hp, hc, recoverRet, recovered_ne_nil, svcDecide_panicErr, hs, it2]
 
 /-- Tasks (1): in every reachable state a task's `executing` flag is set exactly while an execution is in
     progress; in particular it is reset after an execution that panicked. -/
@@ -320,9 +413,47 @@ example :
 
 /-- An API handler that panics: 500, report of type "custom", RunWorker returns nil. -/
 example :
-    (run (St.init 8) ([.spawn { kind := .api false, outs := [.panic .nil] }] ++ List.replicate 5 (.item 0 false))).map
-      (fun s => (s.allDone, s.w, s.feed, s.items.map (fun it => (it.http, it.ret))))
-    = some (true, 0, [⟨.panic, .custom, .nilerr, true⟩], [(500, some .nil)]) := by
+    (run (St.init 8) ([.spawn { kind := .api false false, outs := [.panic .nil] }, .spawn { kind := .api false true, outs := [.panic .errCanceled] }]
+        ++ List.replicate 5 (.item 0 false) ++ List.replicate 5 (.item 1 false))).map
+      (fun s => (s.allDone, s.w, s.feed, s.items.map (fun it => (it.http, it.detail, it.ret))))
+    = some (true, 0, [⟨.panic, .custom, .nilerr, true⟩, ⟨.panic, .custom, .errCanceled, true⟩],
+        [(500, false, some .nil), (500, true, some .nil)]) := by
+  rfl
+
+/-- A service worker that panics with `context.Canceled`, with an error wrapping `ErrRestartNow`, and then
+    returns a wrapped `context.Canceled`: three runs, two reports, both panics restarted with back-off. -/
+example :
+    (run (St.init 8)
+      ([.spawn { kind := .svc, outs := [.panic .errCanceled, .panic .errRestart, .canceled] }] ++
+        List.replicate 14 (.item 0 false))).map
+      (fun s => (s.allDone, s.w, s.feed.length, s.items.map (fun it => (it.runs, it.failCnt))))
+    = some (true, 0, 2, [(3, 2)]) := by
+  rfl
+
+/-- Three panicking workers, a channel of capacity 1 that nobody reads: all three return their panic error,
+    the counters are back, one report delivered, two dropped. -/
+example :
+    (run (St.init 1)
+      ([.spawn { kind := .runWorker, outs := [.panic .str] }, .spawn { kind := .mt true, outs := [.panic .rt] },
+        .spawn { kind := .task, outs := [.panic .errCanceled] }] ++
+        List.replicate 5 (.item 0 false) ++ List.replicate 7 (.item 1 false) ++ List.replicate 7 (.item 2 false))).map
+      (fun s => (s.allDone, s.w, s.t, s.m, s.g, s.feed.length, s.dropped, s.items.map (fun it => it.ret.isSome)))
+    = some (true, 0, 0, 0, 0, 1, 2, [true, true, false]) := by
+  rfl
+
+/-- An unbuffered channel with a consumer parked in the receive takes the report; without a channel it is only
+    kept as `lastReportedError`. -/
+example :
+    (run (St.init 0)
+      ([.recv, .spawn { kind := .runWorker, outs := [.panic .str] }] ++ List.replicate 5 (.item 0 false))).map
+      (fun s => (s.allDone, s.feed, s.taken, s.waiting, s.dropped))
+    = some (true, [panicReport .worker .str], 1, 0, 0) := by
+  rfl
+example :
+    (run (St.init' false 4)
+      ([.spawn { kind := .runWorker, outs := [.panic .str] }] ++ List.replicate 5 (.item 0 false))).map
+      (fun s => (s.allDone, s.w, s.feed.length, s.dropped, s.last))
+    = some (true, 0, 0, 1, some (panicReport .worker .str)) := by
   rfl
 
 /-- Lifecycle passes: a panicking start routine among healthy ones, a panicking stop routine. -/
